@@ -546,7 +546,7 @@ func c01Case(rt *rapid.T, rec *vstat.Rec) {
 		store.G8aCloseQuiet(b)
 	}
 	addrA := a.Addr()
-	if err := a.Close(true); err != nil {
+	if err := store.G8aClose(a); err != nil {
 		fail("C01/close-error", "close failed: %v", err)
 	}
 	store.G8aCloseLayer(a)
